@@ -301,15 +301,16 @@ def run(ctx):
             if kind == "ok":
                 accepted += 1
                 if ref is None:
-                    ref = (res, cmdline)
+                    ref = (res, cmdline, cfg)
                 elif res != ref[0]:
                     diff = sorted(k for k in set(res) | set(ref[0]) if res.get(k) != ref[0].get(k))
-                    spec_fail.append(("lmplz:bytes-differ", {"corpus": "\n".join(lines)[:200000], "order": order, "reference_cmd": ref[1], "differing_cmd": cmdline,
-                                                             "files_that_differ": diff}, "lmplz output differs between two accepted configurations: %s" % ", ".join(diff)))
+                    spec_fail.append(("lmplz:bytes-differ", {"corpus": "\n".join(lines)[:400000], "order": order, "reference_cmd": ref[1], "differing_cmd": cmdline,
+                                                             "reference_cfg": ref[2], "differing_cfg": cfg, "files_that_differ": diff},
+                                      "lmplz output differs between two accepted configurations: %s" % ", ".join(diff)))
             elif kind == "rejected":
                 rejected += 1
             else:
-                spec_fail.append(("lmplz:" + kind, {"corpus": "\n".join(lines)[:200000], "order": order, "cmd": cmdline, "stderr": res},
+                spec_fail.append(("lmplz:" + kind, {"corpus": "\n".join(lines)[:400000], "order": order, "cmd": cmdline, "cfg": cfg, "stderr": res},
                                   "lmplz %s under an accepted-looking configuration: %s" % (kind, res[:200])))
         lattice_report.append({"corpus": name, "sentences": len(lines), "order": order, "accepted": sum(1 for k, _ in per_cfg if k == "ok"),
                                "rejected": sum(1 for k, _ in per_cfg if k == "rejected")})
@@ -353,17 +354,25 @@ def run(ctx):
 
 def replay(ctx, obj):
     r = obj["replay"]
-    if "differing_cmd" in r or "cmd" in r:
+    if "differing_cfg" in r or "cfg" in r:
         tool = vlib.tool("lmplz")
         path = os.path.join(ctx.scratch, "replay.txt")
         open(path, "w").write(r["corpus"] + "\n")
-        print("corpus written to", path)
-        outs = []
-        for key in ("reference_cmd", "differing_cmd", "cmd"):
+        results = []
+        for key in ("reference_cfg", "differing_cfg", "cfg"):
             if key in r:
-                print(key + ":", "lmplz", r[key])
-        print("re-run both commands on the corpus (paths inside the commands are scratch paths of the failing run) and compare the outputs byte for byte")
-        return 1
+                kind, res, cmdline = run_lmplz(ctx, tool, path, r["order"], r[key], "replay-" + key)
+                print(key + ":", "lmplz", cmdline, "->", kind, res if kind != "ok" else "")
+                results.append((kind, res))
+        if any(k in ("crash", "hang") for k, _ in results):
+            print("oracle: lmplz crashed / hung under a configuration it accepted")
+            return 1
+        oks = [res for k, res in results if k == "ok"]
+        if len(oks) == 2 and oks[0] != oks[1]:
+            print("oracle: outputs differ:", sorted(k for k in set(oks[0]) | set(oks[1]) if oks[0].get(k) != oks[1].get(k)))
+            return 1
+        print("oracle: ok")
+        return 0
     impl = vlib.compile_driver("c07_driver", DRIVER, libs=("kenlm_builder", "kenlm", "kenlm_util"))
     path = os.path.join(ctx.scratch, "replay.txt")
     open(path, "w").write(r["corpus"])
